@@ -21,6 +21,70 @@ RESERVED_TAIL = ["_source", "_classification", "_generated", "_version"]
 ESC_PROBES = string.ascii_letters + string.digits + "\\/.,;:-_ 0"
 
 
+class _LogFile:
+    """a file object that records the sizes it is asked to read"""
+
+    def __init__(self, f, log):
+        self._f, self._log = f, log
+
+    def read(self, *a):
+        self._log.append(("read",) + tuple(a))
+        return self._f.read(*a)
+
+    def __iter__(self):
+        return iter(self._f)
+
+    def __next__(self):
+        return next(self._f)
+
+    def __getattr__(self, k):
+        return getattr(self._f, k)
+
+
+class logged_open:
+    """within the block the module's `open` is a wrapper that logs its arguments and returns a logging file object"""
+
+    def __init__(self, module):
+        self.module, self.log = module, []
+
+    def __enter__(self):
+        import builtins
+        self.had = "open" in vars(self.module)
+        self.old = vars(self.module).get("open")
+        real = self.old or builtins.open
+
+        def _open(*a, **k):
+            self.log.append(("open", a, dict(k)))
+            return _LogFile(real(*a, **k), self.log)
+        self.module.open = _open
+        return self.log
+
+    def __exit__(self, *exc):
+        if self.had:
+            self.module.open = self.old
+        else:
+            del self.module.open
+        return False
+
+
+def _open_newline(log, mode_char):
+    """the newline argument of the logged open(path, mode, ...) calls with that mode; None when nothing was logged"""
+    vals = set()
+    for ev in log:
+        if ev[0] != "open":
+            continue
+        a, k = ev[1], ev[2]
+        mode = a[1] if len(a) > 1 else k.get("mode", "r")
+        if mode_char not in mode or "b" in mode:
+            continue
+        vals.add(a[5] if len(a) > 5 else k.get("newline", None))
+    if not vals:
+        return None
+    if len(vals) > 1:
+        raise Unsupported("files are opened with different newline arguments: %r" % (vals,))
+    return ("set", vals.pop())
+
+
 def _common_prefix(a, b):
     n = 0
     while n < len(a) and n < len(b) and a[n] == b[n]:
@@ -178,7 +242,11 @@ def observe_csv():
                         arg, _csv_terminator(tmp, arg), table))
             # the error handler of the output file
             from flow.record import RecordDescriptor
+            from flow.record.adapter import csvfile
             D = RecordDescriptor("probe/t", [("string", "Q")])
+            with logged_open(csvfile) as log:
+                _csv_run(tmp, [D(Q="x", _generated=TS)], fields="Q")
+            newline = _open_newline(log, "w")
             try:
                 out = _csv_run(tmp, [D(Q="a\udcff", _generated=TS)], fields="Q")
                 if b"a\xff" not in out:
@@ -206,7 +274,7 @@ def observe_csv():
                         k = len(_common_prefix(out, want))
                         raise Unsupported("CsvfileWriter(%r): output differs from header-per-descriptor-change layout written by "
                                           "csv.writer at offset %d: %r vs expected %r" % (kw, k, out[max(0, k - 30):k + 30], want[max(0, k - 30):k + 30]))
-        return dict(default=default, repl=table, se=se)
+        return dict(default=default, repl=table, se=se, newline=newline)
     finally:
         shutil.rmtree(tmp, ignore_errors=True)
 
@@ -430,6 +498,7 @@ READER_PROBES = [
 
 
 def observe_reader():
+    from flow.record.adapter import csvfile
     from flow.record.adapter.csvfile import CsvfileReader
     from flow.record.base import normalize_fieldname
     os.makedirs("/verif/.work", exist_ok=True)
@@ -437,24 +506,41 @@ def observe_reader():
     try:
         with warnings.catch_warnings():
             warnings.simplefilter("ignore")
-            for text, note in READER_PROBES:
-                path = os.path.join(tmp, "probe_r.csv")
+            path = os.path.join(tmp, "probe_r.csv")
+
+            def read_file(text, **kw):
                 with open(path, "w", newline="", encoding="utf-8") as f:
                     f.write(text)
+                rd = CsvfileReader(path, **kw)
+                try:
+                    return list(rd.desc.fields), [[getattr(r, k) for k in r._desc.fields] for r in rd]
+                finally:
+                    rd.close()
+            for text, note in READER_PROBES:
                 rows = [list(r) for r in csv.reader(io.StringIO(text, newline=""))]
                 keep = [j for j, h in enumerate(rows[0]) if not normalize_fieldname(h).startswith("_")]
-                want = [[r[j] for j in keep] for r in rows[1:]]
+                want = ([normalize_fieldname(rows[0][j]) for j in keep], [[r[j] for j in keep] for r in rows[1:]])
                 try:
-                    rd = CsvfileReader(path)
-                    try:
-                        got = [[getattr(r, k) for k in r._desc.fields] for r in rd]
-                    finally:
-                        rd.close()
+                    got = read_file(text)
                 except Exception as e:  # noqa
                     got = "%s: %s" % (type(e).__name__, e)
                 if got != want:
                     raise Unsupported("CsvfileReader does not read a file whose first row consists of field names in the "
-                                      "writer's dialect (%s): %r is read as %r, expected %r" % (note, text, got, want))
-        return dict(excel_on_names=True)
+                                      "writer's dialect, under the normalised header names that do not start with '_' (%s): %r is "
+                                      "read as %r, expected %r" % (note, text, got, want))
+            # the fields= argument replaces the header row
+            if read_file("1,2\r\n3,\"4,5\"\r\n", fields="my-col,_hidden") != (["my_col", "x__hidden"], [["1", "2"], ["3", "4,5"]]):
+                raise Unsupported("CsvfileReader(fields=...) does not use the given names for a file without a header row")
+            # how the file is opened and how much of it is handed to the dialect detection: a long file through a
+            # logging file object
+            long_text = "a;b\r\n" + "".join("w%d;x%d\r\n" % (i, i) for i in range(400))
+            with logged_open(csvfile) as log:
+                names, rows = read_file(long_text)
+            if names != ["a", "b"] or rows[:1] != [["w0", "x0"]] or len(rows) != 400:
+                raise Unsupported("CsvfileReader does not read a semicolon-separated file: %r %r" % (names, rows[:2]))
+            newline = _open_newline(log, "r")
+            sizes = sorted({ev[1] for ev in log if ev[0] == "read" and len(ev) == 2 and isinstance(ev[1], int) and ev[1] > 0})
+            sample = sizes[0] if len(sizes) == 1 else None
+        return dict(excel_on_names=True, newline=newline, sample=sample)
     finally:
         shutil.rmtree(tmp, ignore_errors=True)
